@@ -8,7 +8,7 @@ LEMMAS = []
 NATIVE = [
     dict(name="clock clauses on a time lattice + every period spelling incl. ISO-8601 strings and malformed ones", harness="timekeeper_bounded", kind="bounded",
          bound="quick: 5x5 start/stop lattice x 5 dt x 3 reference choices; H/M/S in {absent,0,1,59,60,100,1000,86400}; thorough: 12x12 lattice x 9 dt, 14 values"),
-]
+    dict(name="encoder validation: the interpreter in concrete mode vs the real numpy/numba functions", harness="validate_encoder", kind="validation", prepare="pyvc.validate:run_validation")]
 LEVEL = "proof"
 LEVEL_TEXT = ("Deductive proof over all integer instants/durations (seconds) and both directions: __init__ attributes, clock invariant time == start +/- step*dt "
               "under update, Nsteps == floor(|stop-start|/dt), direction check raises SystemExit exactly on mismatch, step2time/time2step spec functions and their "
